@@ -472,20 +472,9 @@ def run(chk):
     from rules.C02 import step_entry_agreement
 
     step_entry_agreement(chk, drv, "O11.4")
-    AL = drv.cls("Allocator")
-    cl = drv.methods(AL).get("clients")
-    ok = False
-    if cl is not None:
-        inits = [n for n in walk_body(cl) if isinstance(n, ast.Assign) and isinstance(n.targets[0], ast.Name) and source.is_const(n.value, 1)]
-        mx = [n for n in walk_body(cl) if isinstance(n, ast.Call) and dotted(n.func) == "max"]
-        ok = bool(inits) and bool(mx)
-        if not ok and mx:
-            # max(..., default=k) / max(1, ...) forms
-            for m in mx:
-                d = source.arg_of(m, None, "default")
-                if (d is not None and isinstance(d, ast.Constant) and d.value >= 1) or any(isinstance(a, ast.Constant) and a.value >= 1 for a in m.args):
-                    ok = True
-    chk.ob("O11.4", "allocator uses at least one client row", ok, cl if cl is not None else AL, "" if ok else "an empty schedule yields an empty allocation matrix: join_points raises IndexError at benchmark start")
+    from rules.C02 import client_floor_rule
+
+    client_floor_rule(chk, "O11.4", drv)
 
 
 from sa.selftest import V  # noqa: E402
@@ -515,5 +504,6 @@ VARIANTS = [
     V("string tags no longer wrapped (wrong type tested)", "break", _T, "        if isinstance(tags, str):\n            self.tags = [tags]\n        elif tags:", "        if isinstance(tags, list):\n            self.tags = [tags]\n        elif tags:", "O11.1"),
     V("name filter comparison flipped", "keep", _T, "        return self.name == task.name", "        return task.name == self.name"),
     V("match loop as any()", "keep", _L, "        for f in self.filters:\n            if task.matches(f):\n                if hasattr(task, \"tasks\") and self.exclude:\n                    return False\n                return self.exclude\n        return not self.exclude", "        if any(task.matches(f) for f in self.filters):\n            if self.exclude and hasattr(task, \"tasks\"):\n                return False\n            return self.exclude\n        return not self.exclude"),
-    V("max with default 1", "keep", _D, "        max_clients = 1\n        for task in self.schedule:\n            max_clients = max(max_clients, task.clients)\n        return max_clients", "        return max((task.clients for task in self.schedule), default=1)"),
+    V("seed C02-m7: max with default 1 (the default only covers the EMPTY schedule, not a schedule of empty elements)", "break", _D, "        max_clients = 1\n        for task in self.schedule:\n            max_clients = max(max_clients, task.clients)\n        return max_clients", "        return max((task.clients for task in self.schedule), default=1)", "O11.4"),
+    V("explicit floor around the max", "keep", _D, "        max_clients = 1\n        for task in self.schedule:\n            max_clients = max(max_clients, task.clients)\n        return max_clients", "        return max(1, max((task.clients for task in self.schedule), default=0))"),
 ]
